@@ -80,6 +80,16 @@ def handle : Handler := fun op inp impl =>
     { agree := got == want, holds := got == want, nontrivial := !bodies.isEmpty,
       model := Json.mkObj [("stream", want)],
       why := if got == want then "" else "encoder: stream is not the concatenation of prefix+body" }
+  | "peer" =>
+    -- the reference client must have read every request written to its stdin, however the byte
+    -- stream was split across reads, in the binary and in the JSON wire variant
+    if !(isNull (field impl "panic")) then
+      { agree := false, holds := false, why := "panic: " ++ str (field impl "panic") } else
+    let got := strList (field impl "got")
+    let want := strList (field impl "want")
+    let holds := got == want && !want.isEmpty
+    { agree := holds, holds := holds, nontrivial := nat (field inp "chunk") > 0, cls := if bool (field inp "json") then "peer-json" else "peer-binary",
+      why := if holds then "" else s!"reference client answered {got.length} of {want.length} requests written to its stdin (chunk {nat (field inp "chunk")}): " ++ str (field impl "runErr") ++ str (field impl "err") }
   | "json" =>
     let hdrs := (arr (field inp "hdrs")).map (fun h => let l := strList h; if l.isEmpty then [""] else l)
     let e := ending (str (field inp "ending"))
